@@ -86,7 +86,9 @@ func (simpleEngine) Gen(prop string, seed uint64, tier string) *Spec {
 			if rng.Chance(0.6) {
 				cnt = uint64(rng.Intn(4200))
 			}
-			switch rng.Pick([]int{10, 6, 5, 2}) {
+			switch rng.Pick([]int{10, 6, 5, 2, 1}) {
+			case 4:
+				op.K = "misc" // every other procedure of the simple server, with this handle
 			case 0:
 				op.K = "write"
 				op.Off, op.Cnt = off, cnt
@@ -189,6 +191,8 @@ func sStep(st *sState, in sIn, out sOut) []*sState {
 	same := []*sState{st}
 	ok := out.Status == 0
 	switch in.K {
+	case "misc":
+		return same // no specified effect; must only return
 	case "readall":
 		for i := sFirst; i <= sLast; i++ {
 			f := st.f[i]
@@ -326,6 +330,29 @@ func simpleCall(nfs *simple.Nfs, in sIn) sOut {
 		fh = nfstypes.Nfs_fh3{Data: []byte(in.FH)}
 	}
 	switch in.K {
+	case "misc":
+		d := nfstypes.Diropargs3{Dir: fh, Name: nfstypes.Filename3([]string{"a", "b", "", "zz"}[in.Off%4])}
+		nfs.NFSPROC3_NULL()
+		nfs.NFSPROC3_LOOKUP(nfstypes.LOOKUP3args{What: d})
+		nfs.NFSPROC3_ACCESS(nfstypes.ACCESS3args{Object: fh})
+		nfs.NFSPROC3_READLINK(nfstypes.READLINK3args{Symlink: fh})
+		nfs.NFSPROC3_CREATE(nfstypes.CREATE3args{Where: d})
+		nfs.NFSPROC3_MKDIR(nfstypes.MKDIR3args{Where: d})
+		nfs.NFSPROC3_SYMLINK(nfstypes.SYMLINK3args{Where: d})
+		nfs.NFSPROC3_MKNOD(nfstypes.MKNOD3args{Where: d})
+		nfs.NFSPROC3_REMOVE(nfstypes.REMOVE3args{Object: d})
+		nfs.NFSPROC3_RMDIR(nfstypes.RMDIR3args{Object: d})
+		nfs.NFSPROC3_RENAME(nfstypes.RENAME3args{From: d, To: d})
+		nfs.NFSPROC3_LINK(nfstypes.LINK3args{File: fh, Link: d})
+		nfs.NFSPROC3_READDIR(nfstypes.READDIR3args{Dir: fh, Cookie: nfstypes.Cookie3(in.Off), Count: nfstypes.Count3(in.Cnt)})
+		nfs.NFSPROC3_READDIRPLUS(nfstypes.READDIRPLUS3args{Dir: fh, Cookie: nfstypes.Cookie3(in.Off)})
+		nfs.NFSPROC3_FSSTAT(nfstypes.FSSTAT3args{Fsroot: fh})
+		nfs.NFSPROC3_FSINFO(nfstypes.FSINFO3args{Fsroot: fh})
+		nfs.NFSPROC3_PATHCONF(nfstypes.PATHCONF3args{Object: fh})
+		nfs.NFSPROC3_COMMIT(nfstypes.COMMIT3args{File: fh, Offset: nfstypes.Offset3(in.Off), Count: nfstypes.Count3(in.Cnt)})
+		nfs.MOUNTPROC3_NULL()
+		nfs.MOUNTPROC3_MNT(nfstypes.Dirpath3("/x"))
+		nfs.MOUNTPROC3_EXPORT()
 	case "getattr":
 		r := nfs.NFSPROC3_GETATTR(nfstypes.GETATTR3args{Object: fh})
 		out.Status = uint32(r.Status)
@@ -502,7 +529,7 @@ func (simpleEngine) Exec(spec *Spec) *Result {
 			if !okI || inv >= ev {
 				continue
 			}
-			if r.in.K == "read" || r.in.K == "getattr" {
+			if r.in.K == "read" || r.in.K == "getattr" || r.in.K == "misc" {
 				continue // observers constrain the crash-free history only
 			}
 			if okR && ret < ev {
